@@ -35,6 +35,9 @@ public:
     void set_allotment(unsigned allotment) {
         my_arena.set_allotment(allotment);
     }
+#if ONETBB_VERIF
+    unsigned verif_allotment() const { return my_arena.my_num_workers_allotted.load(std::memory_order_relaxed); }
+#endif
 };
 
 //------------------------------------------------------------------------
@@ -108,6 +111,21 @@ void market::update_allotment() {
         }
     }
     __TBB_ASSERT(assigned == max_workers, nullptr);
+#if ONETBB_VERIF
+    {
+        // read-only snapshot for the allotment invariant checker; my_mutex is held by every caller
+        long v[4 + 4 * 64]; int n = 0;
+        v[0] = my_num_workers_soft_limit; v[1] = my_total_demand; v[2] = my_mandatory_num_requested;
+        for (unsigned list_idx = 0; list_idx < num_priority_levels && n < 64; ++list_idx) {
+            for (auto it = my_clients[list_idx].rbegin(); it != my_clients[list_idx].rend() && n < 64; ++it, ++n) {
+                tbb_permit_manager_client& client = static_cast<tbb_permit_manager_client&>(**it);
+                v[4 + 4 * n] = list_idx; v[5 + 4 * n] = client.min_workers(); v[6 + 4 * n] = client.max_workers(); v[7 + 4 * n] = client.verif_allotment();
+            }
+        }
+        v[3] = n;
+        __TBB_VERIF_REPORT(vr_market_allotment, this, v, 4 + 4 * n);
+    }
+#endif
 }
 
 void market::set_active_num_workers(int soft_limit) {
